@@ -28,7 +28,7 @@ pub fn explore(opts: &Opts) -> Explored {
     };
     let sh = shapes(rank, dim);
     let variants: Vec<u64> = vec![opts.seed % 3, (opts.seed + 1) % 3];
-    // (op, valuation kind): 0 positive ints, 1 signed ints with a zero, 2 small positive, 3 small signed
+    // (op, valuation kind): 0 positive ints, 1 signed ints with a zero, 2 small positive, 3 small signed, 4 saturating
     let maps: Vec<(OpK, u8)> = vec![
         (OpK::Neg, 1),
         (OpK::Scale(-2.0), 1),
@@ -50,6 +50,9 @@ pub fn explore(opts: &Opts) -> Explored {
         (OpK::Relu, 1),
         (OpK::Relu, 3),
         (OpK::Sigmoid, 3),
+        (OpK::Sigmoid, 4),
+        (OpK::Relu, 4),
+        (OpK::Neg, 4),
         (OpK::Softmax, 3),
         (OpK::Softmax, 2),
     ];
@@ -81,7 +84,12 @@ pub fn explore(opts: &Opts) -> Explored {
                     0 => vals(n, 0, var),
                     1 => vals_signed(n, 0, var),
                     2 => vals_small(n, 0, var),
-                    _ => vals_small_signed(n, 0, var),
+                    3 => vals_small_signed(n, 0, var),
+                    _ => {
+                        // saturating magnitudes (still far inside the range of f32)
+                        let sat = [-500.0, 30.0, -100.0, 89.0, 100.0, -30.0, 700.0, -89.0, 500.0, -700.0];
+                        (0..n).map(|i| sat[(i + var as usize) % sat.len()]).collect()
+                    }
                 };
                 // reciprocal needs non-zero inputs
                 let v: Vec<f64> = if matches!(op, OpK::Recip) { v.iter().map(|x| if *x == 0.0 { 1.25 } else { *x }).collect() } else { v };
